@@ -6,7 +6,7 @@ CONSTANTS
   MaxTerm = 3
   MaxLog = 2
   MaxClient = 0
-  MaxCrash = 0
+  MaxCrash = 1
   MaxMsgs = 3
   MaxSnap = 0
   MaxMember = 0
@@ -15,7 +15,7 @@ CONSTANTS
   MaxMisc = 0
   MaxAppend = 2
   Trailing = 1
-  Features = {"prevote"}
+  Features = {"crash"}
 VIEW view
 INVARIANTS ElectionSafety OneVotePerTerm TermDurable CommittedFunctional CommittedStable LeaderComplete LogMatching TermsMonotoneM CommitBounded CommitJustified FsmOnlyCommitted FsmInOrder FsmAgree OneUncommittedCfg NoHoleM ReportedCovered
 CHECK_DEADLOCK FALSE
